@@ -13,7 +13,8 @@ RULE = ('[thorough tier additionally: a 300 s atheris/libFuzzer campaign on byte
         'every shipped curve incl. custom initial grids, checked after every operation. Non-trivial = state/history '
         'in which the closure bisected an element other than the requested one, or reached with >= 2 operation '
         'kinds; distinct by tree fingerprint (BFS) or by the whole case (histories).')
-ASSUMPTIONS = ['the reference model (vlib/meshmodel.py): exact dyadic boxes, geometric neighbour rule, forced-repair '
+ASSUMPTIONS = ['Doerfler operations inside histories are judged with the oracle of C06 (exact-rational bulk set, model closure); grading by validity (C19)',
+               'the reference model (vlib/meshmodel.py): exact dyadic boxes, geometric neighbour rule, forced-repair '
                'closure; its fixpoint is the smallest 1-irregular refinement because levels only grow',
                'marking and grading operations are judged by validity only here (1-irregular tiling refining the '
                'previous mesh); their exact outcome is C06 / C19']
